@@ -363,6 +363,20 @@ func genC15(g *G) {
 			g.Emit(J{"op": "agg.mode", "f": f, "values": vals}, "boundary")
 		}
 	}
+	// history independence: a call that fails half-way (a value that cannot be serialized, met after some
+	// values were tallied) must leave nothing behind for the next call, which has only f supporters
+	for f := 1; f <= 3; f++ {
+		for rep := 0; rep < 3; rep++ {
+			good := J{"t": "tsv", "at": S(5 + rep), "v": svJ(llo.ToDecimal(decimal.New(7, 0)))}
+			poison := J{"t": "tsv", "at": "9", "v": nil}
+			g.EmitImpl(J{"op": "agg.mode", "f": f, "values": []any{good, poison}}, "poison")
+			probe := []any{}
+			for i := 0; i < f; i++ {
+				probe = append(probe, good)
+			}
+			g.Emit(J{"op": "agg.mode", "f": f, "values": probe}, "probe-after-poison")
+		}
+	}
 	// all permutations of small tied lists
 	base := []any{
 		svJ(llo.ToDecimal(decimal.New(1, 0))), svJ(llo.ToDecimal(decimal.New(1, 0))),
